@@ -5,6 +5,7 @@ import (
 	"fmt"
 	"os"
 	"path/filepath"
+	"strings"
 
 	"github.com/cloudwego/thriftgo/plugin"
 
@@ -94,12 +95,37 @@ func replay(repo, file, thriftgo, plug string) int {
 		h.codecCase("replay", h.reqCodec(), req, true, true)
 	case "version":
 		v := str("v")
-		h.out.Fail(vl.OracleFail{Key: keyOf("version", v), What: "supportDataTrailer on a recorded version string",
-			Input: map[string]interface{}{"kind": "version", "v": v}, Expected: "see replay", Observed: plugin.VerifSupportDataTrailer(v)})
+		// the recorded string is well-formed: vA.B.C[-pre]
+		core := strings.SplitN(strings.TrimPrefix(v, "v"), "-", 2)[0]
+		parts := strings.Split(core, ".")
+		if len(parts) != 3 {
+			fmt.Fprintln(os.Stderr, "not a well-formed version:", v)
+			return 1
+		}
+		want := refVersionGE(parts[0], parts[1], parts[2])
+		if got := plugin.VerifSupportDataTrailer(v); got != want {
+			h.out.Fail(vl.OracleFail{Key: keyOf("version", v), What: "supportDataTrailer disagrees with v >= v0.4.2",
+				Input: map[string]interface{}{"kind": "version", "v": v}, Expected: want, Observed: got})
+		}
 	case "pca":
-		s := str("s")
-		h.out.Fail(vl.OracleFail{Key: keyOf("pca", s), What: "ParseCompactArguments/Pack on a recorded option string",
-			Input: map[string]interface{}{"kind": "pca", "s": s}, Expected: "see replay", Observed: h.pcaImpl(s)})
+		var kvs [][2]string
+		json.Unmarshal(doc.Input["kvs"], &kvs)
+		name := str("name")
+		if !pcaHolds(name, kvs) {
+			s := pcaRender(name, kvs)
+			h.out.Fail(vl.OracleFail{Key: keyOf("pca", s), What: "plugin parameters do not keep command-line order/content",
+				Input: map[string]interface{}{"kind": "pca", "s": s, "name": name, "kvs": kvs}, Expected: kvs, Observed: h.pcaImpl(s)})
+		}
+	case "trailer":
+		d := []byte(vl.UnHex(str("data")))
+		var feature uint8
+		json.Unmarshal(doc.Input["feature"], &feature)
+		a := plugin.VerifAppendDataTrailer(append([]byte{}, d...), feature)
+		if !plugin.VerifHasDataTrailerFeature(a, feature) || len(a) != len(d)+1+len(plugin.VerifPluginDataTrailer) || string(a[:len(d)]) != string(d) {
+			h.out.Fail(vl.OracleFail{Key: keyOf("trailer", fmt.Sprintf("%s %d", vl.Hex(string(d)), feature)),
+				What: "appended trailer not detected or data not preserved", Input: map[string]interface{}{"kind": "trailer", "data": vl.Hex(string(d)), "feature": feature},
+				Expected: "hasDataTrailerFeature(appendDataTrailer(d,f),f) and d is a prefix", Observed: fmt.Sprintf("len=%d", len(a))})
+		}
 	case "process":
 		var s scenario
 		if err := json.Unmarshal(doc.Input["scenario"], &s); err != nil {
